@@ -1,4 +1,5 @@
 from vlib.core import Case
+from props import c14
 
 H = "harness/c15_buffers.c"
 FN = {1: "SCPI_NumberToStr (value with unit)", 2: "SCPI_NumberToStr (special number name)", 3: "SCPI_DoubleToStr",
@@ -25,6 +26,17 @@ def cases(tier):
     cs = [mk(fn, mb, 600 if tier == "quick" else 2400) for fn in (1, 2, 3, 4)]
     cs.append(mk(5, 12, 900 if tier == "quick" else 2400))
     cs.append(mk(6, 40, 900 if tier == "quick" else 3000))
+    # integer to string (the statement's last item): the buffer-bound / truncation relation of C14's harness for every
+    # buffer length 0..70 - both widths, signed and unsigned, decimal slice and windows at the sign boundary, one
+    # non-decimal base with all 2^32 values
+    q = tier == "quick"
+    for w in (32, 64):
+        cs.append(c14.mk(w, 10, 0, 0, 9999 if q else 999999, timeout=1800, tag="-lo"))
+        cs.append(c14.mk(w, 10, 1, 0, 999 if q else 9999, timeout=1800, tag="-lo"))
+        c = 2 ** (w - 1)
+        cs.append(c14.mk(w, 10, 0, c - 2, c + 2, timeout=900, tag="-win%d" % c))
+    cs.append(c14.mk(32, 16, 0, timeout=900))
+    cs.append(c14.mk(64, 16, 0, timeout=1800))
     return cs
 
 
@@ -32,7 +44,7 @@ META = dict(
     ub_is_violation=True,
     bounds=dict(buffer_len="0..24 quick / 0..40 thorough, symbolic", values="eight table values whose printed lengths run from 1 to 22 characters",
                 unit_name="any 1..5 upper-case letters", special_name="any 1..8 letters", quoted_text="any well-formed quoted string of 2..10 bytes"),
-    outside=["the digits libc printf produces (not repository code); integer to string buffers are C14's subject",
+    outside=["the digits libc printf produces (not repository code)", "integer to string: values outside the slices listed per case (C14 holds the full set)",
              "buffer lengths above the bound"],
     assumptions=["snprintf contract: writes at most size bytes, NUL-terminates when size>0, returns the would-be length"],
     explanation="bounded model checking of the real formatting/copy functions with exact-size caller buffers of symbolic length",
